@@ -190,6 +190,7 @@ def check_model(c, item):
         return
     iface = ModelCSimInterface(m)
     iface.py_prep_deterministic_simulation()
+    iface.py_prep_deterministic_simulation()     # preparing again must not change anything
     nontrivial = False
     for x in STATES:
         xv = np.array([x.get(s, 0.0) for s in sl])
